@@ -254,8 +254,15 @@ package rosmar
 //@   requires event != nil
 //@   ensures [C08:postEvent.shared-event-intact] *event == old(*event)
 //@   loop 1 invariant [C08:postEvent.loop-intact] *event == old(*event)
-//@   loop 1 invariant [C08:postEvent.loop-one-push] iter("list.pushfront") <= 1
+//@   loop 1 invariant [C08:postEvent.loop-one-push] iter("call:queue.push") <= 1
 //@   ensures [C08,C16:postEvent.reaches-every-feed] !leftloopearly()
+//@   variant general
+//@   variant feeds1 entry:c.bucket.collectionFeeds=slice1 loops=unroll
+//@   variant feeds2 entry:c.bucket.collectionFeeds=slice2 loops=unroll
+//@   variant feeds3 entry:c.bucket.collectionFeeds=slice3 loops=unroll
+//@   ensures [C08,C15,C16:postEvent.one-feed-gets-it]    in feeds1: count("maplookup.present") == 1 ==> count("call:queue.push") == 1
+//@   ensures [C08,C15,C16:postEvent.two-feeds-get-it]    in feeds2: count("maplookup.present") == 1 ==> count("call:queue.push") == 2 && callargN("queue.push", 0, 0) != callargN("queue.push", 1, 0)
+//@   ensures [C08,C15,C16:postEvent.three-feeds-get-it]  in feeds3: count("maplookup.present") == 1 ==> count("call:queue.push") == 3 && callargN("queue.push", 0, 0) != callargN("queue.push", 1, 0) && callargN("queue.push", 1, 0) != callargN("queue.push", 2, 0) && callargN("queue.push", 0, 0) != callargN("queue.push", 2, 0)
 //@   ensures [C20:postEvent.unlocked] any: nolocks()
 //@
 //@ fn (*event).asFeedEvent
@@ -272,6 +279,8 @@ package rosmar
 //@   loop 1 invariant [C08:asFeedEvent.loop] true
 //@
 //@ fn (*queue[T]).push
+//@   modular in=postEvent
+//@   flag writes=q.list
 //@   ensures [C08:queue.push.front]    !old(listnil(q.list)) ==> ok && count("list.pushfront") == 1 && listlen(q.list) == old(listlen(q.list)) + 1
 //@   ensures [C16:queue.push.closed]   old(listnil(q.list)) ==> !ok && count("list.pushfront") == 0
 //@   ensures [C20:queue.push.unlocked] any: nolocks()
